@@ -1120,6 +1120,22 @@ func (c *ControlPlane) InheritDialerHealthFrom(previous *ControlPlane) bool {
 		previousGroups[group.Name] = group
 	}
 
+	// Dialers are shared between the groups of one generation, so the hand-over
+	// runs in three passes over ALL groups: a group's selection floor must not be
+	// undone by a later group's restore of a shared dialer, and a group without a
+	// namesake in the previous generation can still lose every member to the
+	// state inherited through the groups it shares dialers with.
+
+	// 1. Record each fresh group's own choice before any state is inherited.
+	fallbacks := make([]outbound.ReloadSelectionFallback, len(c.outbounds))
+	for i, group := range c.outbounds {
+		if group == nil {
+			continue
+		}
+		fallbacks[i] = group.CaptureReloadSelectionFallback()
+	}
+
+	// 2. Inherit the last known state of every dialer matched by group+name.
 	for _, group := range c.outbounds {
 		if group == nil {
 			continue
@@ -1128,7 +1144,6 @@ func (c *ControlPlane) InheritDialerHealthFrom(previous *ControlPlane) bool {
 		if oldGroup == nil {
 			continue
 		}
-		fallback := group.CaptureReloadSelectionFallback()
 		oldDialers := make(map[string]*dialer.Dialer, len(oldGroup.Dialers))
 		for _, d := range oldGroup.Dialers {
 			if d == nil || d.Property() == nil {
@@ -1145,7 +1160,16 @@ func (c *ControlPlane) InheritDialerHealthFrom(previous *ControlPlane) bool {
 				hasOverlap = true
 			}
 		}
-		group.EnsureReloadSelectionFloor(fallback)
+	}
+
+	// 3. Only now keep one candidate selectable in every group whose inherited
+	// state would otherwise leave a network type without any alive dialer.
+	// Marking a dialer alive never empties another group, so the order is free.
+	for i, group := range c.outbounds {
+		if group == nil {
+			continue
+		}
+		group.EnsureReloadSelectionFloor(fallbacks[i])
 	}
 	return hasOverlap
 }
